@@ -3619,6 +3619,16 @@ class ExpectileGAM(GAM):
 
         y = check_y(y, self.link, self.distribution, verbose=self.verbose)
         check_X_y(make_2d(X, verbose=False), y)
+        if weights is not None:
+            check_lengths(
+                y,
+                check_array(
+                    np.array(weights).astype('f').ravel(),
+                    name='sample weights',
+                    ndim=1,
+                    verbose=self.verbose,
+                ),
+            )
 
         # do binary search
         max_ = 1.0
